@@ -134,6 +134,241 @@ theorem canvas_total (c : Canvas) (x y : Int) :
     exact drawLines_total _ c x y
   · simp only [h]; exact ⟨c, rfl⟩
 
+/-! ### what a cell holds -/
+
+/-- content of cell (x, y), `none` outside the grid -/
+def cell (c : Canvas) (x y : Int) : Option String :=
+  if y < 0 ∨ x < 0 then none else
+  match c.grid[y.toNat]? with
+  | some row => row[x.toNat]?
+  | none => none
+
+theorem isInBounds_eq_cell (c : Canvas) (x y : Int) : c.isInBounds x y = (cell c x y).isSome := by
+  unfold Canvas.isInBounds cell
+  by_cases hy : y < 0
+  · have : ¬ (0 ≤ y) := by omega
+    simp [hy, this]
+  · have hy' : 0 ≤ y := by omega
+    by_cases hx : x < 0
+    · have : ¬ (0 ≤ x) := by omega
+      cases hr : c.grid[y.toNat]? <;> simp [hx, this, hr]
+    · have hx' : 0 ≤ x := by omega
+      cases hr : c.grid[y.toNat]? with
+      | none => simp [hy, hx, hr]
+      | some row =>
+        have hsz : y < c.grid.size := by
+          have := Array.getElem?_eq_some_iff.1 hr
+          obtain ⟨h, _⟩ := this
+          omega
+        simp only [hy, hx, hr, hy', hx', hsz, or_self, if_false, decide_true, Bool.true_and]
+        by_cases hlt : x.toNat < row.size
+        · have : x < row.size := by omega
+          simp [this, Array.getElem?_eq_getElem hlt]
+        · have : ¬ x < row.size := by omega
+          have hn : row[x.toNat]? = none := Array.getElem?_eq_none (by omega)
+          simp [this, hn]
+
+theorem get_eq_cell (c : Canvas) (x y : Int) : c.get x y = .ok ((cell c x y).getD "") := by
+  unfold Canvas.get
+  rw [isInBounds_eq_cell]
+  cases hc : cell c x y with
+  | none => simp
+  | some s =>
+    simp only [Option.isSome_some, if_true, Option.getD_some]
+    unfold cell at hc
+    unfold Canvas.rawGet
+    by_cases hy : y < 0
+    · simp [hy] at hc
+    · by_cases hx : x < 0
+      · simp [hx] at hc
+      · simp only [hy, hx, or_self, if_false] at hc ⊢
+        cases hr : c.grid[y.toNat]? with
+        | none => simp [hr] at hc
+        | some row => simp only [hr] at hc ⊢; rw [hc]
+
+/-- `Set` changes exactly the addressed cell, and only when it exists -/
+theorem set_cell (c c' : Canvas) (x y : Int) (ch : String) (h : c.set x y ch = .ok c') (x' y' : Int) :
+    cell c' x' y' = if x' = x ∧ y' = y ∧ (cell c x y).isSome then some ch else cell c x' y' := by
+  unfold Canvas.set at h
+  rw [isInBounds_eq_cell] at h
+  cases hc : cell c x y with
+  | none =>
+    simp only [hc, Option.isSome_none, Bool.false_eq_true, if_false] at h
+    cases h
+    simp
+  | some s0 =>
+    simp only [hc, Option.isSome_some, if_true] at h
+    have hc0 := hc
+    unfold cell at hc
+    by_cases hy : y < 0
+    · simp [hy] at hc
+    · by_cases hx : x < 0
+      · simp [hx] at hc
+      · simp only [hy, hx, or_self, if_false] at hc
+        cases hr : c.grid[y.toNat]? with
+        | none => simp [hr] at hc
+        | some row =>
+          simp only [hr] at hc
+          have hxlt : x.toNat < row.size := by
+            have := Array.getElem?_eq_some_iff.1 hc
+            exact this.1
+          unfold Canvas.rawSet at h
+          simp only [hy, hx, if_false, hr, hxlt, if_true] at h
+          cases h
+          simp only [Option.isSome_some, and_true]
+          unfold cell
+          by_cases hy' : y' < 0
+          · have : ¬ (x' = x ∧ y' = y) := by omega
+            simp [hy', this]
+          · by_cases hx' : x' < 0
+            · have : ¬ (x' = x ∧ y' = y) := by omega
+              simp [hx', this]
+            · simp only [hy', hx', or_self, if_false]
+              rw [Array.getElem?_setIfInBounds]
+              by_cases hyy : y.toNat = y'.toNat
+              · have hyeq : y' = y := by omega
+                have hysz : y.toNat < c.grid.size := (Array.getElem?_eq_some_iff.1 hr).1
+                simp only [hyy, if_true]
+                rw [← hyy]
+                simp only [hysz, if_true]
+                rw [Array.getElem?_setIfInBounds]
+                by_cases hxx : x.toNat = x'.toNat
+                · have hxeq : x' = x := by omega
+                  have hx'lt : x'.toNat < row.size := by omega
+                  simp [hxx, hxeq, hyeq, hx'lt]
+                · have hxne : x' ≠ x := by omega
+                  simp [hxx, hxne, hyeq, hr]
+              · have hyne : y' ≠ y := by omega
+                simp [hyy, hyne]
+
+theorem drawLine_cell (cells : List (Nat × Char)) (c c' : Canvas) (x y : Int) (h : c.drawLine x y cells = .ok c')
+    (hnodup : (cells.map (·.1)).Nodup) (x' y' : Int) :
+    cell c' x' y' = match cells.find? (fun p => decide (x + p.1 = x') ) with
+      | some p => if y' = y ∧ (cell c x' y).isSome then some (String.singleton p.2) else cell c x' y'
+      | none => cell c x' y' := by
+  induction cells generalizing c with
+  | nil =>
+    unfold Canvas.drawLine at h
+    simp only [List.foldlM_nil] at h
+    cases h
+    simp
+  | cons p r ih =>
+    unfold Canvas.drawLine at h
+    rw [List.foldlM_cons] at h
+    obtain ⟨c1, h1⟩ := set_total c (x + p.1) y (String.singleton p.2)
+    rw [h1] at h
+    have hr : c1.drawLine x y r = .ok c' := h
+    have hnd : (r.map (·.1)).Nodup := (List.nodup_cons.1 (by simpa using hnodup)).2
+    have hnotin : p.1 ∉ r.map (·.1) := (List.nodup_cons.1 (by simpa using hnodup)).1
+    rw [ih c1 hr hnd]
+    have hs := set_cell c c1 (x + p.1) y (String.singleton p.2) h1
+    simp only [List.find?_cons]
+    by_cases hp : x + ↑p.1 = x'
+    · -- the first cell addresses column x': no later cell does
+      have hnone : r.find? (fun q => decide (x + ↑q.1 = x')) = none := by
+        rw [List.find?_eq_none]
+        intro q hq hqx
+        apply hnotin
+        have : (q.1 : Int) = p.1 := by
+          have := of_decide_eq_true hqx
+          omega
+        have : q.1 = p.1 := by exact_mod_cast this
+        exact List.mem_map.2 ⟨q, hq, this⟩
+      simp only [hnone, hp, decide_true]
+      rw [hs x' y']
+      simp only [← hp, true_and]
+    · simp only [hp, decide_false]
+      have hcell : ∀ yy, cell c1 x' yy = cell c x' yy := by
+        intro yy
+        rw [hs x' yy]
+        have : ¬ (x' = x + ↑p.1 ∧ yy = y ∧ (cell c (x + ↑p.1) y).isSome = true) := by
+          intro hh; exact hp hh.1.symm
+        simp [this]
+      rw [hcell y', hcell y]
+
+/-! ### a drawn label reads back -/
+
+theorem byteOffsets_ge (l : List Char) (off : Nat) : ∀ p ∈ byteOffsets l off, off ≤ p.1 := by
+  induction l generalizing off with
+  | nil => intro p hp; cases hp
+  | cons ch r ih =>
+    intro p hp
+    simp only [byteOffsets, List.mem_cons] at hp
+    rcases hp with rfl | hp
+    · exact Nat.le_refl _
+    · have := ih (off + ch.utf8Size) p hp; omega
+
+theorem byteOffsets_nodup (l : List Char) (off : Nat) : ((byteOffsets l off).map (·.1)).Nodup := by
+  induction l generalizing off with
+  | nil => simp [byteOffsets]
+  | cons ch r ih =>
+    simp only [byteOffsets, List.map_cons, List.nodup_cons]
+    refine ⟨?_, ih _⟩
+    intro hmem
+    obtain ⟨p, hp, hpe⟩ := List.mem_map.1 hmem
+    have h1 := byteOffsets_ge r (off + ch.utf8Size) p hp
+    have h2 : 0 < ch.utf8Size := Char.utf8Size_pos ch
+    omega
+
+/-- for a 7-bit label the i-th character is the one drawn at column offset i -/
+theorem byteOffsets_find (l : List Char) (hascii : ∀ ch ∈ l, ch.utf8Size = 1) (x : Int) (off i : Nat) (hi : i < l.length) :
+    (byteOffsets l off).find? (fun p => decide (x + ↑p.1 = x + ↑(off + i))) = some (off + i, l[i]) := by
+  induction l generalizing off i with
+  | nil => cases hi
+  | cons ch r ih =>
+    simp only [byteOffsets, List.find?_cons]
+    cases i with
+    | zero => simp
+    | succ j =>
+      have hne : ¬ (x + (off : Int) = x + ((off + (j + 1) : Nat) : Int)) := by omega
+      simp only [hne, decide_false]
+      have hsz : ch.utf8Size = 1 := hascii ch (by simp)
+      have hj : j < r.length := by simpa using hi
+      have := ih (fun c hc => hascii c (by simp [hc])) (off + ch.utf8Size) j hj
+      rw [hsz] at this ⊢
+      have e : off + 1 + j = off + (j + 1) := by omega
+      rw [e] at this
+      simpa using this
+
+theorem splitLines_go_noNewline (l cur : List Char) (h : '\n' ∉ l) : splitLines.go l cur = [cur.reverse ++ l] := by
+  induction l generalizing cur with
+  | nil => simp [splitLines.go]
+  | cons ch r ih =>
+    have hch : ch ≠ '\n' := fun e => h (by simp [e])
+    have hr : '\n' ∉ r := fun e => h (by simp [e])
+    rw [splitLines.go, if_neg hch, ih (ch :: cur) hr]
+    simp
+
+theorem splitLines_noNewline (l : List Char) (h : '\n' ∉ l) : splitLines l = [l] := by
+  unfold splitLines
+  rw [splitLines_go_noNewline l [] h]
+  simp
+
+/-- **drawLabel_visible**: a single-line 7-bit label drawn where every one of its cells exists reads back character by
+    character from the row it was drawn on (until something else is drawn over it). -/
+theorem drawLabel_visible (c c' : Canvas) (x y : Int) (l : List Char)
+    (hascii : ∀ ch ∈ l, ch.utf8Size = 1) (hnl : '\n' ∉ l)
+    (hfit : ∀ i, i < l.length → (cell c (x + i) y).isSome = true) (hpos : 0 < l.length)
+    (h : c.drawLabel x y l = .ok c') :
+    ∀ i (hi : i < l.length), c'.get (x + i) y = .ok (String.singleton l[i]) := by
+  intro i hi
+  have hb : c.isInBounds x y = true := by
+    rw [isInBounds_eq_cell]
+    have := hfit 0 hpos
+    simpa using this
+  unfold Canvas.drawLabel at h
+  simp only [hb, Bool.not_true, Bool.false_eq_true, if_false, splitLines_noNewline l hnl] at h
+  simp only [List.zipIdx_cons, List.zipIdx_nil, List.foldlM_cons, List.foldlM_nil] at h
+  have hline : c.drawLine x y (byteOffsets l 0) = .ok c' := by
+    cases hd : c.drawLine x y (byteOffsets l 0) with
+    | error e => simp [hd, bind, Except.bind] at h
+    | ok c1 => simpa [hd, bind, Except.bind, pure, Except.pure] using h
+  rw [get_eq_cell, drawLine_cell _ c c' x y hline (byteOffsets_nodup l 0) (x + i) y]
+  have hf := byteOffsets_find l hascii x 0 i hi
+  simp only [Nat.zero_add] at hf
+  rw [hf]
+  simp [hfit i hi]
+
 /-! ### labels -/
 
 /-- text of row `y` of a drawing result -/
